@@ -2661,7 +2661,11 @@ impl<'source> Parser<'source> {
 
                 self.consume_until_token_with_context(entry_context);
 
-                let entry = self.consume_map_key_rebind(key, BindingContext::Default)?;
+                // A key rebind in an inline map is only valid on the LHS of an assignment,
+                // the id gets registered as assigned when the `=` is encountered
+                // (see add_local_ids_for_map_assignment), after which the RHS can still read
+                // a non-local with the same name.
+                let entry = self.consume_map_key_rebind(key, BindingContext::Let)?;
 
                 return Ok(Some(entry));
             } else if let Node::Id(id, _) = self.ast.node(key).node
